@@ -100,7 +100,8 @@ def run(gaf_path, gfa=None, output=None, index=None, nodes=[], regions=[], forma
         with open(index, "rb") as tmp:
             ind = pickle.load(tmp)
 
-        ind_key = sorted(list(ind.keys()), key=lambda x: (x[1], x[2]))
+        # the index also holds the "ref_contig" entry, which is not a node
+        ind_key = sorted((k for k in ind.keys() if isinstance(k, tuple)), key=lambda x: (x[1], x[2]))
         ind_dict = {}
         for i in ind_key:
             ind_dict[i[0]] = i
